@@ -263,7 +263,9 @@ class _mark_ignore_name(ast.NodeTransformer):
 
 
 class _rewrite_captured_vars(ast.NodeTransformer):
-    def __init__(self, cv: inspect.ClosureVars):
+    def __init__(self, cv: inspect.ClosureVars, expanding: Tuple[Any, ...] = ()):
+        # `expanding`: the helper functions whose bodies are being rewritten (recursion guard)
+        self._expanding = expanding
         # A closure variable hides a module global of the same name, as in python itself.
         self._lookup_dict: Dict[str, Any] = dict(cv.globals)
         self._lookup_dict.update(cv.nonlocals)
@@ -274,8 +276,16 @@ class _rewrite_captured_vars(ast.NodeTransformer):
             return node
 
         def safe_parse_wrapper(x: Callable) -> Optional[ast.Lambda]:
+            if any(x is f for f in self._expanding):
+                return None
             try:
-                return _parse_source_for_lambda(x, None)
+                lm = _parse_source_for_lambda(x, None)
+                if lm is not None:
+                    # The helper's own free variables are frozen with the helper's own closure.
+                    lm = _rewrite_captured_vars(
+                        global_getclosurevars(x), self._expanding + (x,)
+                    ).visit(lm)
+                return lm
             except Exception:
                 return None
 
